@@ -377,6 +377,9 @@ def execute(scn, hooks=()):
                                     st.get("flags", 0), st.get("exp", 0))
                 else:
                     node.direct_delete(codec.dec(st["key"]))
+            elif t == "wipe":
+                for n in world.nodes.values():     # every server restarts empty (peer-side event)
+                    n.store.clear()
             elif t == "cluster":
                 world.nodes[st["node"]].cluster = st["cluster"]
             elif t == "resolver":
